@@ -112,6 +112,13 @@ Definition create_time (clk : positive) (bt : Z) (data : bytes) : outcome Q :=
   do m <- create_time_mono clk data;
   Val (m + inject_Z bt)%Q.
 
+(* psutil.Process(pid) (psutil/__init__.py _init -> _get_ident) calls
+   self._proc.create_time(monotonic=True) and lets everything but AccessDenied /
+   ZombieProcess / NoSuchProcess propagate: a stat file on which that call fails makes
+   every public accessor fail the same way before the accessor itself runs. *)
+Definition front {A} (data : bytes) (o : outcome A) : outcome A :=
+  do _ <- create_time_mono 1 data; o.
+
 (* _psposix.get_terminal_map: for each name of glob('/dev/tty*') + glob('/dev/pts/*'):
    ret[os.stat(name).st_rdev] = name, FileNotFoundError skipped *)
 Fixpoint tmap_set (k : Z) (v : bytes) (d : list (Z * bytes)) : list (Z * bytes) :=
